@@ -380,3 +380,25 @@ def core_universe(P: str = "U", variant: int = 0, postponed: bool = False) -> Un
         u.P = P  # type: ignore[attr-defined]
         _CORE_CACHE[key] = u
     return _CORE_CACHE[key]
+
+
+def warm_up(U: Universe, rng) -> list[str]:
+    """Instantiate every concrete class once, in a random order: the order of first use among the classes
+    of a hierarchy is a configuration (accessors are generated per class on first use), so it must vary
+    between shards instead of being fixed by the first generated tree."""
+    order = list(U.concrete())
+    rng.shuffle(order)
+    P = getattr(U, "P", "U")
+    made = []
+    for cn in order:
+        kw = {}
+        for f in U.child_fields(cn):
+            if f.shape == "one":
+                kw[f.name] = U.cls[f"{P}Leaf"]()
+            elif f.shape.startswith("fixed"):
+                kw[f.name] = tuple(U.cls[f"{P}Leaf"](v=i) for i in range(int(f.shape[5:])))
+        n = U.cls[cn](**kw)
+        made.append(n)
+    for n in made:
+        n.detach()
+    return order
